@@ -158,7 +158,10 @@ COMMENTS = ["", " ", "   ", " a comment", "comment", " qtot 1.0", " one ; two", 
             # bracketed words INSIDE comments (units, references, a commented-out directive): not section headers
             " ai aj funct b0 [nm] kb [kJ mol-1 nm-2]", "[ dihedrals ]", " [ref]", " see [bonds] above", "[x]",
             # a comment that ends in a backslash (ASCII sketches of the molecule): NOT a line continuation
-            "   \\", " C1 \\", "\\"]
+            "   \\", " C1 \\", "\\",
+            # control characters that `str.splitlines` treats as line boundaries but a text FILE does not (form feed,
+            # vertical tab, FS/GS/RS): what follows them is still comment (seed C15-9: read().splitlines())
+            " page\x0c 1 2 1", "\x0b 2 3", " x\x1c 1 3 1", "\x1d 9 9", " y\x1e 4 5 1"]
 PP = ["#include \"forcefield.itp\"", "#ifdef POSRES", "#endif", "#define X 1", "#ifndef FLEX", "#else",
       "#", "# spaced"]
 
